@@ -122,6 +122,8 @@ mod dim_extensions;
 pub mod interp1d;
 pub mod interp2d;
 pub mod vector_extensions;
+#[cfg(ndarray_interp_verif)]
+pub mod verif_hooks;
 
 /// Errors during Interpolator creation
 #[derive(Debug, Error)]
@@ -152,6 +154,15 @@ pub enum InterpolateError {
 ///  - Types should be annotated to ensure type inference does not break
 /// the contract by accident
 unsafe fn cast_unchecked<A, B>(a: A) -> B {
+    #[cfg(ndarray_interp_verif)]
+    verif_hooks::emit(verif_hooks::Event::Cast {
+        from: std::any::type_name::<A>(),
+        to: std::any::type_name::<B>(),
+        from_size: std::mem::size_of::<A>(),
+        to_size: std::mem::size_of::<B>(),
+        from_align: std::mem::align_of::<A>(),
+        to_align: std::mem::align_of::<B>(),
+    });
     let ptr = &*ManuallyDrop::new(a) as *const A as *const B;
     unsafe { ptr.read() }
 }
